@@ -31,8 +31,9 @@ CFG = {
                   "with F102 switched on (and the Spec proper on every stream avoiding an ESC into a control string without payload); the exclusions of round 2 for F102c (C0 inside ST) and F102d (invalid byte joined) are gone - both repaired in /repo; "
                   "both parameter decoders equal the Spec's on any collected bytes including Go int overflow "
                   "(CSI wraps mod 2^64, DCS >= 2^63 => error + nil parameters). Action bodies (collect ... csiDispatch, hook) and the bodies of readRune and print (incl. the Print width) are interpreted from statement skeletons regenerated from the source; "
-                  "the interpretation equals the model functions for every reader state.",
-    "level_note": "Proved: see notes/C02.md tables (Props/C02, C02Text, C02Refine, C02Acts, Witness/F102: 86 theorems). Validated by correspondence only: the meaning of the bufio/utf8 stdlib calls in Model/ParserIO.lean / ParserReaderInterp.lean. "
+                  "the interpretation equals the model functions for every reader state, the correspondence driver executes the interpreted bodies with the regenerated table, "
+                  "and every Print of every stream is one oracle cluster or a piece cut at a read boundary / in front of an invalid byte (print_takes_one_cluster), with StringWidth of its grapheme (print_width).",
+    "level_note": "Proved: see notes/C02.md tables (Props/C02, C02Text, C02Refine, C02Acts, Witness/F102: 89 theorems). Validated by correspondence only: the meaning of the bufio/utf8 stdlib calls in Model/ParserIO.lean / ParserReaderInterp.lean. "
                   "False with witness (recorded finding): F102 ST of an empty string delivered (negation of model_refines_spec_full in Witness/F102.lean; pinned by a baseline test). "
                   "Fixed in /repo: F05, F07, F102b, F102c (44d8b73), F102d (6b7d19e) - their witnesses are regression theorems and corpus cases now.",
     "timeout": 1800,
